@@ -1022,6 +1022,7 @@ func (bp *brokerProducer) handleError(sent *produceSet, err error) {
 			bp.parent.returnErrors(pSet.msgs, err)
 		})
 	default:
+		verifHook("prod.broker.connerror")
 		Logger.Printf("producer/broker/%d state change to [closing] because %s\n", bp.broker.ID(), err)
 		bp.parent.abandonBrokerConnection(bp.broker)
 		_ = bp.broker.Close()
